@@ -331,8 +331,11 @@ def map(
             zmin + 0.5 * zspacing, zmax - 0.5 * zspacing, resolution["z"]
         )
     else:
+        # No thickness: a single sample at z=0. Any positive spacing will do; use the
+        # width of the map, because zmax can be zero or negative when dx is not given
+        # and all the selected cells are centered on the same side of the plane.
         zmin = 0.0
-        zspacing = zmax - zmin
+        zspacing = xmax - xmin
         zcenters = [0.0]
 
     xg, yg, zg = np.meshgrid(xcenters, ycenters, zcenters, indexing="ij")
